@@ -27,6 +27,7 @@ DECIDES = (
     " Axis.copy_grading is evaluated with real (symbolic) Chop records: whatever way the copies are made, the chops handed on equal Chop.copy_preserving(inverted=anti-aligned) of the neighbour's chops, in the right order; coincident wires are registered for all 12 x 12 wire pairs (C04.COINCIDENCE-COMPLETE = C01.NEIGHBOUR-SYMMETRY); grading twice starts from scratch on axis and wire level (C04.GRADE-IDEMPOTENT); the edgeGrading slot order (C04.AXIS-DIRECTION)."
     ' A second grade re-copies coincident gradings (part of C04.ALIGNMENT-BRANCH); WireChopManager.update resolves the axis with the mean wire length (C04.AXIS-LENGTH); Grading.inverted is complete (C04.INVERSION-COMPLETE = C03.INVERT-COMPLETE).'
     " After WireChopManager.grade every wire carries a grading built from the axis' own chops, not that of an already graded coincident wire (part of C04.RESULTS-BEFORE-COPY)."
+    " is_simple compares every wire in both manager classes whatever chops the axis holds, format_single prints a wire's grading (parts of C04.SIMPLE-ONLY-IF-EQUAL)."
 )
 NOT_DECIDED = "realised cell sizes for given edge lengths, multi-section numerics."
 ASSUMPTIONS = []
